@@ -61,3 +61,72 @@ def inplace_uses(repo, shared):
                 if any(k.arg == 'out' and isinstance(k.value, ast.Attribute) and k.value.attr in shared for k in n.keywords):
                     hits.append((p, q, n, 'out= writes into a shared class-level array'))
     return hits
+
+
+def _is_mutable_literal(v):
+    return isinstance(v, (ast.List, ast.Dict, ast.Set, ast.ListComp, ast.DictComp, ast.SetComp)) or \
+        (isinstance(v, ast.Call) and isinstance(v.func, ast.Name) and v.func.id in ('dict', 'list', 'set', 'bytearray') and not v.args and not v.keywords) or \
+        (isinstance(v, ast.Call) and (U.call_name(v) or '').split('.')[0] in ('np', 'numpy') and (U.call_name(v) or '').split('.')[-1] in
+         ('zeros', 'ones', 'empty', 'array', 'full', 'eye', 'identity', 'arange', 'linspace', 'zeros_like', 'ones_like'))
+
+
+def mutable_default_hits(repo, paths=None):
+    """[(path, qualname, node, text)]: a parameter whose default is a mutable object created once at definition time is
+    (a) modified in place in the function, or (b) stored into an attribute that is modified in place somewhere in the
+    package.  Either way every call that relies on the default shares one object: state leaks between calls / instances."""
+    hits = []
+    n_params = 0
+    inplace_attr = None
+    for p, q, f in repo.all_functions():
+        if paths is not None and p not in paths:
+            continue
+        a = f.args
+        pos = a.posonlyargs + a.args
+        pairs = list(zip(pos[len(pos) - len(a.defaults):], a.defaults)) + [(x, d) for x, d in zip(a.kwonlyargs, a.kw_defaults) if d is not None]
+        for arg, d in pairs:
+            if not _is_mutable_literal(d):
+                continue
+            n_params += 1
+            name = arg.arg
+            rebound_first = False
+            for n in ast.walk(f):
+                # in-place change of the parameter itself
+                tgt = None
+                if isinstance(n, ast.Subscript) and isinstance(n.ctx, (ast.Store, ast.Del)):
+                    tgt = n.value
+                    while isinstance(tgt, ast.Subscript):
+                        tgt = tgt.value
+                elif isinstance(n, ast.AugAssign):
+                    tgt = n.target
+                    while isinstance(tgt, ast.Subscript):
+                        tgt = tgt.value
+                if isinstance(tgt, ast.Name) and tgt.id == name:
+                    hits.append((p, q, n, f'parameter {name} (default {U.src(d)}, created once) is modified in place: the change is seen by every later call that relies on the default'))
+                if isinstance(n, ast.Call) and isinstance(n.func, ast.Attribute) and n.func.attr in INPLACE_METHODS and isinstance(n.func.value, ast.Name) and n.func.value.id == name:
+                    hits.append((p, q, n, f'parameter {name} (default {U.src(d)}, created once) is modified in place by .{n.func.attr}()'))
+                # stored into an attribute that is modified in place elsewhere
+                if isinstance(n, ast.Assign) and isinstance(n.value, ast.Name) and n.value.id == name:
+                    for t in n.targets:
+                        if isinstance(t, ast.Attribute):
+                            if inplace_attr is None:
+                                inplace_attr = {}
+                                for p2, q2, f2 in repo.all_functions():
+                                    for m in ast.walk(f2):
+                                        tg = None
+                                        if isinstance(m, ast.Subscript) and isinstance(m.ctx, (ast.Store, ast.Del)):
+                                            tg = m.value
+                                            while isinstance(tg, ast.Subscript):
+                                                tg = tg.value
+                                        elif isinstance(m, ast.AugAssign):
+                                            tg = m.target
+                                            while isinstance(tg, ast.Subscript):
+                                                tg = tg.value
+                                        elif isinstance(m, ast.Call) and isinstance(m.func, ast.Attribute) and m.func.attr in INPLACE_METHODS:
+                                            tg = m.func.value
+                                        if isinstance(tg, ast.Attribute):
+                                            inplace_attr.setdefault(tg.attr, (p2, q2, m))
+                            if t.attr in inplace_attr:
+                                p2, q2, m = inplace_attr[t.attr]
+                                hits.append((p, q, n, f'the default of parameter {name} ({U.src(d)}, one object for all calls) is stored as {U.src(t)}, which {q2} modifies in place '
+                                                      f'({U.src(m)[:60]}): every instance built with the default shares that object'))
+    return hits, n_params
